@@ -13,6 +13,7 @@ CONSTANTS
   PruneCache = FALSE
   CapPending = TRUE
   MaxHist = 7
+  WithdrawOnExpiry = TRUE
   EraseOnLookup = FALSE
 INVARIANTS C05_Clean
 VIEW View
